@@ -34,6 +34,8 @@ def _term_weight(t):
     w = 60000 + 30 * len(t)
     if "seq " in t:
         w += sum(1500 * int(n) for n in _CBULK.findall(t))
+    if "repn " in t:
+        w += sum(1500 * int(n) for n in re.findall(r"repn (\d+) ", t))
     if "MChurn" in t or "MSetSeq" in t or "MDelSeq" in t:
         live = 3
         for m in _BULK.finditer(t):
@@ -328,7 +330,7 @@ def flatten_cache(ops, seen, expand=True):
 class C16(Property):
     id = "C16"
     title = "In-memory collections behave as their sequential reference models"
-    quick_cases = 700
+    quick_cases = 660
     thorough_cases = 12000
     design_ref = "DESIGN.md §6/C16"
     level_text = ("Unbounded Rocq theorems over executable models transcribing rollingwindow.go, safemap.go, fifo.go, "
@@ -392,7 +394,20 @@ class C16(Property):
                    vals["interval_ns"], vals["dev_num"], vals["dev_den"], vals["rewrite_moves"])]
 
     def prepare(self, ctx):
-        ov = os.path.join(vlib.HARNESS, "overlay", "timex")
+        # the same executor built with the race detector, for the kinds with several goroutines
+        # (lin, stress): built in the background while the plain one is built and run
+        import threading
+        self.racebin = None
+        self._race_log = ""
+
+        def build_race():
+            ok, res = vlib.go_build("c16race", overlay=self._overlay(), race=True)
+            if ok:
+                self.racebin = res
+            else:
+                self._race_log = res[-1500:]
+        self._race_thread = threading.Thread(target=build_race, daemon=True)
+        self._race_thread.start()
         ok, res = vlib.go_build("c16", overlay=self._overlay())
         self.bin = res if ok else None
         self._consts()
@@ -443,6 +458,14 @@ class C16(Property):
                            ["reduce", t0 + 3 * iv + 2 * gap * iv + iv - 1],
                            ["reduce", t0 + 3 * iv + 2 * gap * iv + iv]]
                     cs.append({"kind": "window", "size": size, "interval": iv, "t0": t0, "ignore": ig, "ops": ops})
+        # the package's own Bucket[T] (Sum, Count): buckets reused after a roll must have been Reset
+        for size in (1, 2):
+            for ig in (False, True):
+                cs.append({"kind": "window", "size": size, "interval": iv, "t0": t0, "ignore": ig, "bucket": "sum", "ops":
+                           [["add", t0 + 5, 3], ["add", t0 + 6, 4], ["reduce", t0 + 6], ["add", t0 + iv, 5], ["reduce", t0 + iv],
+                            ["add", t0 + 2 * iv + 1, 7], ["reduce", t0 + 2 * iv + 1], ["reduce", t0 + 3 * iv],
+                            ["add", t0 + 3 * iv + 2, 11], ["add", t0 + 3 * iv + 2, 13], ["reduce", t0 + 4 * iv - 1],
+                            ["add", t0 + 9 * iv, 9], ["reduce", t0 + 9 * iv], ["reduce", t0 + 10 * iv]]})
         # safemap: past maxDeletion with few live keys (both generations migrate), then with
         # more than copyThreshold live keys (writes switch to dirtyNew, later migration)
         ct, md = self._consts()
@@ -522,6 +545,11 @@ class C16(Property):
         cs.append({"kind": "cachew", "limit": 0, "expire_ms": e2, "ops":
                    [["setseq", max(1000, c0 - 300), 620, 5, e1], ["size"], ["take_gate", 1, 10, [["tick"], ["size"]]],
                     ["get", 1], ["held"]] + T + [["take", 1, 99]] + T + G(1) + [["held"]]})
+        # several goroutines on one object, every answer determined (disjoint keys / commutative adds / equal
+        # values); run by the executor built with -race: missing mutual exclusion is a data race or lost updates
+        srng = random.Random(1616)
+        for obj in ("safemap", "cache", "window", "queue", "ring"):
+            cs.append(self._stress_case(srng, obj, 4, 200))
         # two concurrent Takes of one key (loader gated), limit 1: one load, one entry, one eviction
         cs.append({"kind": "cache_take2", "limit": 1, "ops": [["set", 1, 10], ["take2", 9, 90, 91], ["get", 9], ["get", 1]]})
         cs.append({"kind": "cache_take2", "limit": 2, "ops":
@@ -546,7 +574,7 @@ class C16(Property):
     def gen(self, rng, n, tier):
         kinds = (["window"] * 5 + ["window_phased"] * 4 + ["safemap"] * 3 + ["queue"] + ["queue_phased"] * 3 +
                  ["ring"] + ["ring_phased"] * 2 + ["set"] * 2 + ["cache"] * 2 + ["cache_phased"] * 3 +
-                 ["cachew"] * 3 + ["cache_take2"] + ["lin"] * 2 + ["window_gate"] * 2 + ["cache_gate"] * 2 + ["cachew_gate"])
+                 ["cachew"] * 3 + ["cache_take2"] + ["lin"] * 2 + ["window_gate"] * 2 + ["cache_gate"] * 2 + ["cachew_gate"] + ["stress"])
         cases = []
         for _ in range(n):
             k = rng.choice(kinds)
@@ -1234,6 +1262,115 @@ class C16(Property):
         ops += [["tick"]] * rng.randint(0, 2) + [["held"]] + [["get", x] for x in small]
         return {"kind": "cachew", "limit": limit, "expire_ms": dflt, "ops": ops}
 
+
+    # ---- many goroutines on one object, disjoint keys: every answer is determined ------------
+    def _stress_case(self, rng, obj, T, rounds, cross=True):
+        """T goroutines run their scripts `rounds` times over on ONE object, each on keys of its own;
+        a script ends by deleting its keys, so every round starts from the same state and - whatever
+        the interleaving - every goroutine sees what it would see alone.  Window: only Adds at one
+        instant into Sum/Count buckets (commutative), one Reduce afterwards.  What breaks this is
+        missing mutual exclusion inside the object (lost updates, a corrupted map / list)."""
+        c = {"kind": "stress", "obj": obj, "rounds": rounds, "pre": [], "threads": [], "post": []}
+        val = lambda: rng.randrange(1, 1000)
+        if obj == "window":
+            c.update({"size": rng.choice([1, 3]), "interval": 1000, "t0": T0_BASE + rng.randrange(10 ** 6),
+                      "ignore": False, "bucket": "sum"})
+            c["threads"] = [[["cadd", val()] for _ in range(rng.randint(4, 8))] for _ in range(T)]
+            c["post"] = [["creduce"]]
+            return c
+        if obj in ("queue", "ring"):
+            # every goroutine adds the SAME value: what is held afterwards does not depend on the order
+            c["size"] = rng.choice([1, 2, 3, 5])
+            v = val()
+            c["rounds"] = rounds = min(rounds, 120)
+            word = "put" if obj == "queue" else "add"
+            c["threads"] = [[[word, v] for _ in range(rng.randint(2, 4))] for _ in range(T)]
+            total = rounds * sum(len(t) for t in c["threads"])
+            c["post"] = ([["take"]] * (total + 1) + [["empty"]]) if obj == "queue" else [["take"]]
+            return c
+        for i in range(T):
+            keys = [100 * (i + 1) + j for j in range(rng.randint(2, 3))]
+            blk = []
+            for _ in range(rng.randint(6, 12)):
+                k = rng.choice(keys)
+                if obj == "safemap":
+                    blk.append(rng.choice([["set", k, val()], ["set", k, val()], ["get", k], ["del", k]]))
+                else:
+                    blk.append(rng.choice([["set", k, val()], ["take", k, val()], ["take", k, None], ["get", k], ["del", k]]))
+            blk += [["get", keys[0]]] + [["set", k, val()] for k in keys] + [["del", k] for k in keys]
+            c["threads"].append(blk)
+        if obj == "safemap":
+            ct, md = self._consts()
+            # the goroutines' own deletions carry deletionOld across maxDeletion (migration under way)
+            dels = sum(rounds * sum(1 for o in t if o[0] == "del") for t in c["threads"])
+            c["pre"] = [["setseq", 1000, 3, 1]]
+            if cross:
+                c["pre"].append(["churn", 9, 1, max(0, md - rng.randint(1, max(2, dels // 2)))])
+            c["post"] = [["size"], ["range"], ["get", 1000], ["get", 101]]
+        else:
+            c["limit"] = rng.choice([0, 0, -1])
+            c["pre"] = [["set", 1, 10], ["set", 2, 20]]
+            c["post"] = [["held"], ["size"], ["get", 1], ["get", 101]]
+        return c
+
+    def _gen_stress(self, rng, tier):
+        return self._stress_case(rng, rng.choice(["safemap", "safemap", "cache", "cache", "window", "window", "queue", "ring"]),
+                                 rng.choice([3, 4, 4]), rng.randint(60, 160))
+
+    def _stress_term(self, case, obs):
+        """one sequential history: prefix, script 1 x rounds, script 2 x rounds, ..., post"""
+        obj, R = case["obj"], case["rounds"]
+        seen = list(obs["obs"])
+        if obs.get("err"):
+            seen = None
+        is_obs = (lambda o: o[0] in ("get", "size", "range")) if obj == "safemap" else (lambda o: o[0] in OBSERVING)
+        if obj == "window":
+            ops = " ++ ".join("repn %d %s" % (R, clist(["WAdd %s %s" % (cz(case["t0"]), cz(o[1])) for o in t]))
+                              for t in case["threads"])
+            red = seen if seen is not None and len(seen) == 1 else [[[-424242, 0]]]
+            ob = clist([clist(["(%s, %s)" % (cz(b[0]), cz(b[1] if len(b) > 1 else 0)) for b in r]) for r in red])
+            return "KWindowSum %s %s %s %s (%s ++ [WReduce %s]) %s" % (
+                cz(case["size"]), cz(case["interval"]), cz(case["t0"]), cbool(case.get("ignore", False)), ops,
+                cz(case["t0"]), ob)
+        if obj in ("queue", "ring"):
+            ren = self._qop if obj == "queue" else self._rop
+            ops = " ++ ".join("repn %d %s" % (R, clist([ren(o) for o in t])) for t in case["threads"])
+            post = case["post"]
+            if seen is None or len(seen) != len(post):
+                obt = "[ONum (-424242)]"
+            elif obj == "queue" and len(seen) > 3 and all(x == seen[0] for x in seen[:-2]):
+                obt = "(repn %d [%s] ++ %s)" % (len(seen) - 2, _obs(seen[0]), clist([_obs(o) for o in seen[-2:]]))
+            else:
+                obt = clist([_obs(o) for o in seen])
+            if obj == "queue":
+                return "KQueue %s (%s ++ repn %d [QTake] ++ [QEmpty]) %s" % (cz(case["size"]), ops, len(post) - 1, obt)
+            return "KRing %s (%s ++ [RTake]) %s" % (cz(case["size"]), ops, obt)
+        ren = self._mop if obj == "safemap" else (lambda o: self._ccops(o)[0])
+        op_parts = [clist([ren(o) for o in case["pre"]])]
+        ob_parts = []
+        pos = 0
+        bad = seen is None
+        for t in case["threads"]:
+            g = sum(1 for o in t if is_obs(o))
+            op_parts.append("repn %d %s" % (R, clist([ren(o) for o in t])))
+            if not bad:
+                sl = seen[pos:pos + g * R]
+                pos += g * R
+                if len(sl) != g * R:
+                    bad = True
+                elif sl == sl[:g] * R:
+                    ob_parts.append("repn %d %s" % (R, clist([_obs(o) for o in sl[:g]])))
+                else:
+                    ob_parts.append(clist([_obs(o) for o in sl]))
+        op_parts.append(clist([ren(o) for o in case["post"]]))
+        if not bad:
+            ob_parts.append(clist([_obs(o) for o in seen[pos:]]))
+        obt = "(%s)" % " ++ ".join(ob_parts) if not bad else "[ONum (-424242)]"
+        opt = "(%s)" % " ++ ".join(op_parts)
+        if obj == "safemap":
+            return "KSafeMap %s %s %s %s" % (cz(self.copy_thr), cz(self.max_del), opt, obt)
+        return "KCache %s %s %s" % (cz(case["limit"]), opt, obt)
+
     # ---- free-running goroutines (linearisability) -----------------------------------------
     def _gen_lin(self, rng, tier):
         obj = rng.choice(["queue", "queue", "ring", "cache", "cache", "safemap", "window"])
@@ -1311,24 +1448,46 @@ class C16(Property):
         return {"kind": "cache_rt", "limit": 0, "expire_ms": expire, "ops": ops}
 
     # ------------------------------------------------------------------ run
+    RACE_KINDS = ("lin", "stress")
+
     def execute(self, cases, ctx):
+        # several goroutines on one object: run by the executor built with -race (every case in a
+        # process of its own: a detected data race, like a detected concurrent map access, is that
+        # case's failure); everything else by the plain executor
+        plain = [c for c in cases if c["kind"] not in self.RACE_KINDS]
+        conc = [c for c in cases if c["kind"] in self.RACE_KINDS]
+        by_id = {}
         # every Cache leaves two goroutines behind (wheel loop, stat loop; there is no Close) and the
         # wheel-driven kinds poll all goroutine stacks after each operation: bound the population of
         # one executor process
-        chunks = [cases[i:i + 800] for i in range(0, len(cases), 800)] or [cases]
-        if len(chunks) == 1:
-            outs = [vlib.go_run(self.bin, cases, tag="c16", timeout=1500)]
+        chunks = [plain[i:i + 800] for i in range(0, len(plain), 800)]
+        if len(chunks) <= 1:
+            outs = [vlib.go_run(self.bin, ch, tag="c16", timeout=1500) for ch in chunks]
         else:
             import concurrent.futures
             with concurrent.futures.ThreadPoolExecutor(max_workers=4) as ex:
                 outs = list(ex.map(lambda ic: vlib.go_run(self.bin, ic[1], tag="c16_%d" % ic[0], timeout=1500),
                                    enumerate(chunks)))
-        res = []
+        if conc:
+            t = getattr(self, "_race_thread", None)
+            if t is not None:
+                t.join()
+            rb = getattr(self, "racebin", None)
+            if rb is None and getattr(self, "_race_log", ""):
+                ctx_notes = getattr(ctx, "notes", None)
+                if ctx_notes is not None and not getattr(self, "_race_noted", False):
+                    ctx_notes.append("the -race executor does not build (%s): lin/stress cases run without the race detector"
+                                     % self._race_log[-200:])
+                    self._race_noted = True
+            chunks.append(conc)
+            outs.append(vlib.go_run(rb or self.bin, conc, tag="c16conc", timeout=1500,
+                                    env={"GORACE": "halt_on_error=1 exitcode=66"}))
         for (rc, out, r), ch in zip(outs, chunks):
             if rc != 0 or len(r) != len(ch):
                 raise ExecError("c16 executor rc=%s: %s" % (rc, out[-2000:]))
-            res += r
-        return [self._to_obs(r) for r in res]
+            for c, x in zip(ch, r):
+                by_id[id(c)] = x
+        return [self._to_obs(by_id[id(c)]) for c in cases]
 
     @staticmethod
     def _to_obs(r):
@@ -1365,7 +1524,8 @@ class C16(Property):
             cases.append(c)
         ctx.checker_cmds.append("harness/bin/c16race (go build -race): %d free-running histories on Cache/SafeMap/Queue/Ring/RollingWindow"
                                 % len(cases))
-        rc, out, rs = vlib.go_run(res, cases, tag="c16race", timeout=1500, env={"GORACE": "halt_on_error=1 exitcode=66"})
+        rc, out, rs = vlib.go_run(res, cases, tag="c16race", timeout=1500,
+                                  env={"GORACE": "halt_on_error=1 exitcode=66", "C16_NOISOLATE": "1"})
         if "DATA RACE" in out or rc == 66:
             return [{"what": "data race in core/collection under concurrent use of one object", "replay": out[-4000:]}]
         if rc != 0 or len(rs) != len(cases):
@@ -1412,6 +1572,8 @@ class C16(Property):
         seen = obs["obs"]
         if k == "lin":
             return self._lin_case(case, obs)
+        if k == "stress":
+            return self._stress_term(case, obs)
         if k == "window_gate":
             wops = lambda ops: clist(["WAdd %s %s" % (cz(o[1]), cz(o[2])) if o[0] == "add" else "WReduce %s" % cz(o[1])
                                       for o in ops])
@@ -1507,7 +1669,7 @@ class C16(Property):
         free = obs.get("free") or []
         if obs.get("err") or len(free) != len(case["threads"]) or any(len(f) != len(t) for f, t in zip(free, case["threads"])):
             # a panic / deadlock / missing call: an event no sequential run explains
-            evs.append("mkLev 0 0 %s (ONum (-424242))" % ren(case["threads"][0][0]))
+            evs.append("mkLev 0 0 %s (ONum (-424242))" % self._paren(ren(case["threads"][0][0])))
         else:
             allev = [(o, e) for script, f in zip(case["threads"], free) for o, e in zip(script, f)]
             for o, e in allev:
@@ -1738,6 +1900,8 @@ class C16(Property):
                     if any(x["s"] < y["e"] and y["s"] < x["e"] for x in a for y in b):
                         return True
             return False
+        if k == "stress":
+            return not obs.get("err") and len(case["threads"]) >= 2 and case["rounds"] >= 50
         if k == "window_gate":
             # the callback was parked with buckets still to come, and an Add then rolled the window
             g = obs.get("gate") or {}
@@ -1807,6 +1971,9 @@ class C16(Property):
 
     def features(self, case, obs):
         k = case["kind"]
+        if k == "stress":
+            return ["kind=stress", "stress:obj=" + case["obj"], "stress:threads=%d" % len(case["threads"])] + (
+                ["executor_error"] if obs.get("err") else [])
         if k == "lin":
             fs = ["kind=lin", "lin:obj=" + case["obj"], "lin:threads=%d" % len(case["threads"])]
             if obs.get("err"):
@@ -1887,11 +2054,24 @@ class C16(Property):
         return None
 
     def _weight(self, case):
-        if case["kind"] == "lin":
+        if case["kind"] in ("lin", "stress"):
             return 0
         return sum((self._bulk(o) or (0, 1))[1] for o in case["ops"])
 
     def shrink_candidates(self, case):
+        if case["kind"] == "stress":
+            # fewer goroutines; shorter scripts (a failure here depends on timing: candidates often pass)
+            res = []
+            for i in range(len(case["threads"])):
+                if len(case["threads"]) > 2:
+                    c = dict(case)
+                    c["threads"] = case["threads"][:i] + case["threads"][i + 1:]
+                    res.append(c)
+            if case.get("pre"):
+                c = dict(case)
+                c["pre"] = case["pre"][:-1]
+                res.append(c)
+            return res
         if case["kind"] == "lin":
             res = []
             for i, th in enumerate(case["threads"]):
@@ -1953,6 +2133,9 @@ class C16(Property):
             "cache_take2": "two concurrent Takes of one key were not equivalent to one load: loader ran twice, the second caller got another value, or more than one entry / eviction",
             "window_gate": "a Reduce overlapping Adds of another goroutine was shown buckets that are the Reduce of no single "
                            "window state (neither the window before the Adds nor after any of them)",
+            "stress": "goroutines using disjoint keys of one %s (each answer is determined whatever the interleaving; window: "
+                      "commutative Adds) saw answers that no sequential run gives: updates were lost, the structure was "
+                      "corrupted, or the process died" % case.get("obj"),
             "lin": "free-running goroutines on one %s: the observed results have no explanation as a sequential run consistent "
                    "with the real-time order of the calls (or a goroutine panicked / never returned)" % case.get("obj"),
         }.get(k, "property check failed")
